@@ -63,13 +63,13 @@ def _router_paths(P, cname):
     """paths of <cname>.next_node -> list of (facts, returned index text, its defining expression text, path state)"""
     view = P.view(cname)
     cls, fn = view.method("next_node")
-    w = Walker(P, view, keep=lambda e: e.kind in ("guard", "return", "call") or (e.kind == "assign" and e.d.get("local")), track=lambda t, f: True, inline=rules.new_helper)
+    w = Walker(P, view, keep=lambda e: e.kind in ("guard", "return", "call", "enter", "leave") or (e.kind == "assign" and e.d.get("local")), track=lambda t, f: True, inline=rules.new_helper)
     out = []
     for st in w.paths_of(cls, fn):
         if st.status != "return":
             out.append((None, None, None, st))
             continue
-        ret = [e for e in st.events if e.kind == "return"][0]
+        ret = [e for e in st.events if e.kind == "return" and e.frame.depth == 0][-1]
         vn = ret.d["value_node"]
         idx = None
         if isinstance(vn, ast.Subscript) and unparse(vn.value) == "self.simulation.nodes":
@@ -83,7 +83,19 @@ def _router_paths(P, cname):
             out.append((facts, None, None, st))
         else:
             itxt = unparse(idx)
-            out.append((facts, itxt, defs.get(itxt, ret.d["value"][len("self.simulation.nodes["):-1] if isinstance(idx, ast.Name) else itxt), st))
+            dtxt = defs.get(itxt, ret.d["value"][len("self.simulation.nodes["):-1] if isinstance(idx, ast.Name) and ret.d["value"] else itxt)
+            if isinstance(idx, ast.Name):
+                # the index may be the value returned by a newly extracted helper: follow it to the expression that produced it
+                from ..typestate import origin
+                ri = max(i for i, e in enumerate(st.events) if e is ret)
+                o = origin(st.events, ri, idx.id + ret.frame.tag, ret.frame)
+                if o is not None:
+                    for e in st.events:
+                        if e.kind == "return" and e.d.get("value_node") is o[0]:
+                            dtxt = e.d.get("canon") or dtxt
+                        elif e.kind == "assign" and e.d.get("value_node") is o[0] and e.d.get("value") not in (None, "?"):
+                            dtxt = e.d["value"]
+            out.append((facts, itxt, dtxt, st))
     return out, fn
 
 
@@ -105,7 +117,7 @@ def routers(ctx, P):
         single(cname, want)
     # process-based: exit iff the route is empty, else the head of the route
     for cname, head in (("ProcessBased", "ind.route.pop(0)"), ("FlexibleProcessBased", "self.find_next_node_from_subset(ind.route[0],ind)")):
-        if cname not in P.classes or "next_node" not in P.classes[cname].methods:
+        if cname not in P.classes or P.view(cname).resolve("next_node") is None:
             ctx.unrecognised("RET: router %s.next_node not found" % cname)
             continue
         n += 1
@@ -186,11 +198,28 @@ def deterministic(ctx, P):
     ob = ctx.ob("DET", "Direct / Leave / Cycle / ProcessBased.next_node (and the jockeying defaults) reach no random source in the call graph")
     G = callgraph(P)
     for q in ("Direct.next_node", "Leave.next_node", "Cycle.next_node", "ProcessBased.next_node", "NodeRouting.next_node_for_jockeying", "ProcessBased.next_node_for_jockeying", "FIFO", "LIFO"):
-        if q not in G.funcs:
-            ctx.unrecognised("DET: %s not found" % q)
-            continue
-        hits = G.random_sources_reached(q)
-        ob.ok(q, "%s reaches %d functions, 0 random sources" % (q, len(G.reach(q))))
+        if "." in q:
+            cname_, mname_ = q.split(".")
+            res = G.random_sources_in_view(cname_, mname_) if cname_ in P.classes else None
+            if res is None:
+                ctx.unrecognised("DET: %s not found" % q)
+                continue
+            hits, reached = res
+            if mname_.endswith("_for_jockeying"):
+                # a default: it runs in every router class that inherits it, with that class's own next_node / rerouting
+                own = P.view(cname_).resolve(mname_)
+                for sub_ in P.subclasses(cname_)[1:]:
+                    r_ = P.view(sub_).resolve(mname_)
+                    if r_ is not None and own is not None and r_[1] is own[1]:
+                        h2, s2 = G.random_sources_in_view(sub_, mname_)
+                        hits = hits + h2
+                        reached = reached | s2
+        else:
+            if q not in G.funcs:
+                ctx.unrecognised("DET: %s not found" % q)
+                continue
+            hits, reached = G.random_sources_reached(q), G.reach(q)
+        ob.ok(q, "%s reaches %d functions, 0 random sources" % (q, len(reached)))
         for via, (kind, text, node) in hits[:1]:
             ctx.violation(ob, "R10.deterministic-router", q, "%s via %s" % (kind, via), "reaches-random-source", "%s must be deterministic but reaches %s in %s" % (q, kind, via), loc(node))
 
